@@ -105,7 +105,10 @@ def run_impl(case):
                 if op == "set":
                     _, k, v, ttl, tags, via = e
                     if via == "decor" and not await cache.exists(k):
-                        await fb(k[2:], value=v, life=ttl * TICK)      # the decorator stores (key b:<x>, tags [g:<x>])
+                        if (t + len(case["events"])) % 2:      # the templated field is passed positionally or by keyword: same key, same tag
+                            await fb(k[2:], value=v, life=ttl * TICK)      # the decorator stores (key b:<x>, tags [g:<x>])
+                        else:
+                            await fb(x=k[2:], value=v, life=ttl * TICK)
                     else:
                         await cache.set(k, v, expire=ttl * TICK if ttl else None, tags=tags)
                 elif op == "incr":
